@@ -283,6 +283,9 @@ fn new_stats() -> Stats {
 fn load(g: &Generated, seed: u64) -> Option<Session> {
     let mut sess = Session::new();
     sess.keep_log = false;
+    // half of the cases run with warnings on (decided by the seed, so that both runs of a pair agree): warning
+    // records are part of the transcript of the driving calls and must not depend on where the breaks fall
+    sess.it.enable_warnings = seed & 1 == 1;
     sess.call(Op::Randomize(seed));
     exec::load_program(&mut sess, &g.prog).ok()?;
     Some(sess)
@@ -436,11 +439,14 @@ fn run_case(ctx: &Ctx, index: u64, rep: &mut Report) {
             g1.prog.lines[li].stmts[si] = Stmt::Stop;
             // run P'
             let Some(mut s2) = load(&g2, seed) else { return };
+            // (an assignment typed at the prompt and the same assignment inside the program do not warn alike)
+            s2.it.enable_warnings = false;
             let mut st = new_stats();
             let mut problems = vec![];
             let t2 = drive(&mut s2, &g2.replies, &mut rng, &mut |_| false, 0, &mut st, &mut problems);
             // run P: at every STOP type the assignment and CONT
             let Some(mut s1) = load(&g1, seed) else { return };
+            s1.it.enable_warnings = false;
             let mut t1 = Transcript::default();
             let mut replies_given = 0;
             let mut op = Op::Line("RUN".into());
